@@ -99,6 +99,32 @@ MUTANTS = [
      "                ess = effective_sample_size(samples.log_weights(0.5 * (beta + samples.beta)))\n"),
     ("c18-resume-dup", ["C18"], S + "samplers/smc/base.py",
      "        if store_sample_history and not resumed:", "        if store_sample_history:"),
+    # ---- C04
+    ("c04-logit-jac-sign", ["C04"], S + "utils.py",
+     "    log_j = (-xp.log(x) - xp.log1p(-x)).sum(-1)", "    log_j = (-xp.log(x) + xp.log1p(-x)).sum(-1)"),
+    ("c04-sigmoid-jac", ["C04"], S + "utils.py",
+     "    log_j = (xp.log(x) + xp.log1p(-x)).sum(-1)", "    log_j = (xp.log(x) - xp.log1p(-x)).sum(-1)"),
+    ("c04-forget-scale-jac", ["C04"], S + "transforms.py",
+     "        y, log_abs_det_jacobian = logit(y, eps=self.eps)\n        log_abs_det_jacobian = log_abs_det_jacobian + log_j_unit\n",
+     "        y, log_abs_det_jacobian = logit(y, eps=self.eps)\n"),
+    ("c04-composite-inverse-drops-bounded-jac", ["C04"], S + "transforms.py",
+     "            x = update_at_indices(x, (slice(None), self.bounded_mask), y)\n            log_abs_det_jacobian += log_j_bounded\n\n        if self.periodic_parameters:",
+     "            x = update_at_indices(x, (slice(None), self.bounded_mask), y)\n\n        if self.periodic_parameters:"),
+    ("c04-periodic-no-offset", ["C04"], S + "transforms.py",
+     "        y = self.lower + (x - self.lower) % self._width", "        y = self.lower + x % self._width"),
+    ("c04-affine-jac-mean", ["C04"], S + "transforms.py",
+     "        self._std = x.std(0)\n        self.log_abs_det_jacobian = -self.xp.log(self.xp.abs(self._std)).sum()",
+     "        self._std = x.std(0)\n        self.log_abs_det_jacobian = -self.xp.log(self.xp.abs(self._std)).mean()"),
+    ("c04-probit-jac-sign", ["C04"], S + "transforms.py",
+     "        log_abs_det_jacobian = 0.5 * (math.log(2 * math.pi) + y**2).sum(-1)",
+     "        log_abs_det_jacobian = 0.5 * (math.log(2 * math.pi) - y**2).sum(-1)"),
+    ("c04-clip-asymmetric", ["C04"], S + "utils.py",
+     "        x = xp.clip(x, eps, 1 - eps)", "        x = xp.clip(x, eps, 1 - 10 * eps)"),
+    ("c04-fit-skips-wrap", ["C04"], S + "transforms.py",
+     "                self._periodic_transform.fit(x[:, self.periodic_mask]),", "                x[:, self.periodic_mask],"),
+    ("c04-composite-jac-float32", ["C04"], S + "transforms.py",
+     "        log_abs_det_jacobian = self.xp.zeros(\n            len(x), device=self.device, dtype=x.dtype\n        )\n        if self.periodic_parameters:",
+     "        log_abs_det_jacobian = self.xp.zeros(len(x), device=self.device)\n        if self.periodic_parameters:"),
 ]
 
 
